@@ -418,16 +418,16 @@ let split_segs line = Str.split (Str.regexp_string " ; ") line
 let () =
   let cases = read_lines Sys.argv.(1) in
   let impls = if Array.length Sys.argv > 2 && Sys.argv.(2) <> "-" then Some (read_lines Sys.argv.(2)) else None in
-  (* variant names: repaired | defective | v<d1>..<d9> with 0/1 flags *)
+  (* variant names: repaired | defective | v<d1>..<d10> with 0/1 flags *)
   let variant =
     if Array.length Sys.argv > 3 then
       (match Sys.argv.(3) with
        | "defective" -> defective
        | "repaired" -> repaired
        | "benign" -> benign_mode := true; head
-       | v when String.length v = 10 && v.[0] = 'v' ->
+       | v when String.length v = 11 && v.[0] = 'v' ->
          { d1 = (v.[1] = '1'); d2 = (v.[2] = '1'); d3 = (v.[3] = '1'); d4 = (v.[4] = '1'); d5 = (v.[5] = '1');
-           d6 = (v.[6] = '1'); d7 = (v.[7] = '1'); d8 = (v.[8] = '1'); d9 = (v.[9] = '1') }
+           d6 = (v.[6] = '1'); d7 = (v.[7] = '1'); d8 = (v.[8] = '1'); d9 = (v.[9] = '1'); d10 = (v.[10] = '1') }
        | _ -> repaired)
     else repaired in
   List.iteri (fun idx line ->
